@@ -417,6 +417,105 @@ theorem C10_fs_rejects_overlong (blocks : List Loc) (o l : Nat) (ho : o < two63)
     simp only [hwrap, decide_true, Bool.true_or, true_iff]
     omega
 
+/-- `ParseInt(s, 10, bits)` returns a value below 2^(bits-1) -/
+theorem parseIntBits_bound (bits : Nat) (s : Bytes) (n : Int) (h : parseIntBits bits s = some n) :
+    n < ((2 ^ (bits - 1) : Nat) : Int) := by
+  have key : ∀ (o : Option Nat) (f : Nat → Option Int), o.bind f = some n → ∃ k, o = some k ∧ f k = some n := by
+    intro o f hb
+    cases o with
+    | none => cases hb
+    | some k => exact ⟨k, rfl, hb⟩
+  unfold parseIntBits at h
+  cases s with
+  | nil => cases h
+  | cons c rest =>
+    simp only [] at h
+    by_cases h43 : (c == 43) = true
+    · rw [if_pos h43] at h
+      obtain ⟨k, _, hk⟩ := key _ _ h
+      by_cases hlt : k < 2 ^ (bits - 1)
+      · rw [if_pos hlt] at hk; cases hk; exact_mod_cast hlt
+      · rw [if_neg hlt] at hk; cases hk
+    · rw [if_neg h43] at h
+      by_cases h45 : (c == 45) = true
+      · rw [if_pos h45] at h
+        obtain ⟨k, _, hk⟩ := key _ _ h
+        by_cases hle : k ≤ 2 ^ (bits - 1)
+        · rw [if_pos hle] at hk; cases hk
+          have : (0 : Int) < ((2 ^ (bits - 1) : Nat) : Int) := by
+            have := Nat.two_pow_pos (bits - 1)
+            exact_mod_cast this
+          omega
+        · rw [if_neg hle] at hk; cases hk
+      · rw [if_neg h45] at h
+        obtain ⟨k, _, hk⟩ := key _ _ h
+        by_cases hlt : k < 2 ^ (bits - 1)
+        · rw [if_pos hlt] at hk; cases hk; exact_mod_cast hlt
+        · rw [if_neg hlt] at hk; cases hk
+
+/-- what `loadManifest` reads as a locator has an int32 size (`ParseInt(toks[1], 10, 32)`) -/
+theorem fsLocator_size (t : Bytes) (b : Loc) (h : fsLocator t = some b) : b.size < two31 := by
+  unfold fsLocator at h
+  cases hs : splitN3 bPlus t with
+  | nil => rw [hs] at h; cases h
+  | cons a r =>
+    cases r with
+    | nil => rw [hs] at h; cases h
+    | cons sz r' =>
+      rw [hs] at h
+      simp only [] at h
+      cases hp : parseIntBits 32 sz with
+      | none => rw [hp] at h; cases h
+      | some n =>
+        rw [hp] at h
+        simp only [] at h
+        by_cases hneg : n < 0
+        · rw [if_pos hneg] at h; cases h
+        · rw [if_neg hneg] at h
+          cases h
+          have := parseIntBits_bound 32 sz n hp
+          simp only []
+          unfold two31
+          omega
+
+theorem streamLen_le_of_sizes : ∀ (bs : List Loc), (∀ b ∈ bs, b.size < two31) → streamLen bs ≤ bs.length * (two31 - 1)
+  | [], _ => by simp
+  | b :: rest, h => by
+    have := streamLen_le_of_sizes rest (fun x hx => h x (List.mem_cons_of_mem _ hx))
+    have hb := h b (by simp)
+    simp only [streamLen_cons, List.length_cons]
+    rw [Nat.add_mul]
+    omega
+
+/-- **C10_fs_rejects_overlong, in the loader's own terms**: for the block list `loadManifest` reads
+from any locator tokens (sizes are int32 by its `ParseInt`), fewer than 2^32 of them (a manifest
+line of less than ~140 GB; beyond that the int64 cursor itself could overflow), and every offset and
+length `ParseInt` accepts, a file token is rejected **exactly** when it reaches past the end of its
+stream. The former hypothesis "stream length < 2^63" is discharged from the int32 parse. -/
+theorem C10_fs_rejects_overlong_parsed (btoks : List Bytes) (blocks : List Loc)
+    (hb : mapOpt fsLocator btoks = some blocks) (hn : btoks.length ≤ 4294967296)
+    (o l : Nat) (ho : o < two63) (hl : l < two63) :
+    fsRejects blocks o l = true ↔ streamLen blocks < o + l := by
+  have hsz : ∀ b ∈ blocks, b.size < two31 := by
+    have key : ∀ (ts : List Bytes) (bs : List Loc), mapOpt fsLocator ts = some bs → ∀ b ∈ bs, b.size < two31 := by
+      intro ts
+      induction ts with
+      | nil => intro bs h b hb'; simp [mapOpt] at h; subst h; simp at hb'
+      | cons t r ih =>
+        intro bs h b hb'
+        obtain ⟨x, xs, hx, hxs, rfl⟩ := mapOpt_cons_some fsLocator t r bs h
+        rcases List.mem_cons.mp hb' with rfl | hb'
+        · exact fsLocator_size t b hx
+        · exact ih xs hxs b hb'
+    exact key btoks blocks hb
+  have hlen : blocks.length = btoks.length := mapOpt_length fsLocator btoks blocks hb
+  have h1 := streamLen_le_of_sizes blocks hsz
+  apply C10_fs_rejects_overlong blocks o l ho hl
+  have : blocks.length * (two31 - 1) ≤ 4294967296 * (two31 - 1) := Nat.mul_le_mul_right _ (by omega)
+  unfold two31 at *
+  unfold two63
+  omega
+
 /-- the witness of the repaired finding F10b is now rejected -/
 def wF10b : Bytes := [46, 32, 97, 97, 97, 97, 97, 97, 97, 97, 97, 97, 97, 97, 97, 97, 97, 97, 97, 97, 97, 97, 97, 97, 97, 97, 97, 97, 97, 97, 97, 97, 97, 97, 43, 51, 32, 57, 50, 50, 51, 51, 55, 50, 48, 51, 54, 56, 53, 52, 55, 55, 53, 56, 48, 55, 58, 50, 58, 102, 10]
 set_option maxRecDepth 100000 in
